@@ -169,6 +169,26 @@ def stepX (s : St) : OpX → St × Out
       | some x =>
         if kindAt s.heap x ≠ some 3 then (s.skip, .na)
         else (s.skip, .err (if j.isSome then typeError else attributeError))
+  | .newHeaderFrom t =>
+      match s.target t with
+      | none => (s.skip, .badRef)
+      | some x =>
+        match s.heap[x]? with
+        | none => (s.skip, .badRef)
+        | some o =>
+          match o.sc with
+          | .header h | .block h => Model.Heap.step s (.newHeader h)
+          | _ => (s.skip, .na)
+  | .newBlockFrom t txs =>
+      match s.target t with
+      | none => (s.skip, .badRef)
+      | some x =>
+        match s.heap[x]? with
+        | none => (s.skip, .badRef)
+        | some o =>
+          match o.sc with
+          | .header h | .block h => Model.Heap.step s (.newBlock h txs)
+          | _ => (s.skip, .na)
 
 def runX : St → List OpX → St × List Out
   | s, [] => (s, [])
